@@ -8,7 +8,6 @@ from typing import TYPE_CHECKING
 from typing import Iterable
 from typing import NamedTuple
 from typing import TextIO
-from typing import cast
 
 from markupsafe import Markup
 
@@ -25,6 +24,7 @@ from liquid2.builtin import StringLiteral
 from liquid2.builtin import parse_keyword_arguments
 from liquid2.builtin.content import ContentNode
 from liquid2.builtin.output import OutputNode
+from liquid2.exceptions import LiquidTypeError
 from liquid2.exceptions import TranslationKeyError
 from liquid2.exceptions import TranslationSyntaxError
 from liquid2.exceptions import TranslationValueError
@@ -133,13 +133,17 @@ class TranslateNode(Node, TranslatableTag):
 
     def resolve_translations(self, context: RenderContext) -> Translations:
         """Return a translations object from the current render context."""
-        return cast(
-            Translations,
-            # Global data only. Templates can't choose the object we call.
-            context.base_globals.get(
-                self.translations_var, self.default_translations
-            ),
+        # Global data only. Templates can't choose the object we call.
+        translations = context.base_globals.get(
+            self.translations_var, self.default_translations
         )
+        if not isinstance(translations, Translations):
+            raise LiquidTypeError(
+                f"expected a message catalog at '{self.translations_var}', "
+                f"found {type(translations).__name__}",
+                token=self.token,
+            )
+        return translations
 
     def resolve_count(
         self,
